@@ -370,7 +370,7 @@ pub fn run_package(w: &Workspace, l: &Layout, base: &Path, shim_mode: Option<&st
             format!("prog=cargo-libcnb;prefix={};{mode};rdseed={};stats={}", l.pkg.display(), w.token | 1, stats.display()),
         );
     }
-    let out = cmd.output().map_err(|e| format!("spawn cargo-libcnb: {e}"))?;
+    let (out, _killed) = pool::output_limited(&mut cmd).map_err(|e| format!("spawn cargo-libcnb: {e}"))?;
     let (matched, fired, fired_call) = read_stats(&stats);
     let stderr = String::from_utf8_lossy(&out.stderr);
     Ok(RunOut {
